@@ -36,6 +36,9 @@ func outcomeMonitor(endpoint string, rp sim.Response) []finding {
 			out = append(out, finding{"C10.error-and-wrote", site, endpoint, fmt.Sprintf("err=%q statuses=%v writes=%d", rp.Err, rp.Statuses, rp.Writes), 0})
 		}
 	default:
+		if rp.WriteBeforeStatus && len(rp.Statuses) > 0 {
+			out = append(out, finding{"C10.status-count", site, endpoint + ": body written before the status", fmt.Sprintf("the body was written before WriteHeader(%v): an implicit 200 had already gone out", rp.Statuses), 0})
+		}
 		if len(rp.Statuses)+len(rp.AppStatuses) != 1 {
 			out = append(out, finding{"C10.status-count", site, endpoint, fmt.Sprintf("library statuses=%v application statuses=%v", rp.Statuses, rp.AppStatuses), 0})
 		}
@@ -66,8 +69,12 @@ func statusModel(exp expectation) string {
 	}
 	if exp.Endpoint == "PostInbox" || exp.Endpoint == "PostOutbox" {
 		switch {
-		case exp.BodyClass == "nonjson" || exp.BodyClass == "body-read-fails":
-			return "error"
+		case exp.BodyClass == "nonjson" || exp.BodyClass == "body-read-fails" || exp.BodyClass == "not-an-object":
+			return "error|400"
+		case exp.BodyClass == "no-type" || exp.BodyClass == "no-context":
+			return "" // neither "unknown type" nor well-formed: left open
+		case exp.BodyClass == "callback-says-object-required" || exp.BodyClass == "callback-says-target-required":
+			return "400"
 		case exp.BodyClass == "unknown-type":
 			return "400"
 		case strings.HasPrefix(exp.BodyClass, "bad-id"):
@@ -76,7 +83,7 @@ func statusModel(exp expectation) string {
 			}
 			return ""
 		case exp.BodyClass == "bare-object" && exp.Endpoint == "PostInbox":
-			return "error"
+			return "error|400"
 		}
 		if exp.Endpoint == "PostInbox" {
 			if exp.Block == 1 {
@@ -89,7 +96,7 @@ func statusModel(exp expectation) string {
 		if strings.HasPrefix(exp.BodyClass, "missing-") {
 			return "400"
 		}
-		if exp.BodyClass == "valid" || exp.BodyClass == "bare-object" || exp.BodyClass == "good-id" {
+		if exp.BodyClass == "valid" || exp.BodyClass == "bare-object" || strings.HasPrefix(exp.BodyClass, "good-id") {
 			if exp.Endpoint == "PostInbox" {
 				return "200"
 			}
@@ -131,6 +138,11 @@ func judgeStatus(exp expectation, sc *sim.Scenario, res *sim.Result) []finding {
 		if !rp.Handled || rp.Err == "" {
 			return bad("expected an error")
 		}
+	case "error|400":
+		// unusable input: an error, or the 400 of an unusable body
+		if !rp.Handled || (rp.Err == "" && !(len(rp.Statuses) == 1 && rp.Statuses[0] == 400)) {
+			return bad("expected an error or 400")
+		}
 	case "app401":
 		if !rp.Handled || rp.Err != "" || len(rp.Statuses) != 0 || len(rp.AppStatuses) != 1 {
 			return bad("expected only the application's 401")
@@ -142,6 +154,18 @@ func judgeStatus(exp expectation, sc *sim.Scenario, res *sim.Result) []finding {
 		if len(rp.Statuses) != 1 || (rp.Statuses[0] != 200 && rp.Statuses[0] != 410) {
 			return bad("expected 200 or 410")
 		}
+		if exp.Endpoint == "Handler" && len(sc.Requests) > 0 {
+			// 410 exactly for a stored Tombstone
+			if st, ok := sc.Store[sc.Requests[0].URL].(M); ok {
+				wantS := 200
+				if st["type"] == "Tombstone" {
+					wantS = 410
+				}
+				if rp.Statuses[0] != wantS {
+					return bad(fmt.Sprintf("a stored %v is served with %d", st["type"], wantS))
+				}
+			}
+		}
 	default:
 		if rp.Err != "" && (want == "200" || want == "201") && exp.BodyClass != "valid" {
 			return nil
@@ -151,7 +175,8 @@ func judgeStatus(exp expectation, sc *sim.Scenario, res *sim.Result) []finding {
 		}
 		if want == "201" {
 			loc := rp.Header["Location"]
-			if len(res.Issued) == 0 || loc != res.Issued[0] {
+			ob := outboxItems(res.After, sc.Requests[0].URL)
+			if !contains(res.Issued, loc) || len(ob) == 0 || ob[0] != loc {
 				return bad(fmt.Sprintf("Location %q is not the new activity id %v", loc, res.Issued))
 			}
 		}
@@ -190,7 +215,15 @@ func idFamily(valid M) []struct {
 		mk("bad-id:number", func(m M) { m["id"] = 5 }),
 		mk("bad-id:object", func(m M) { m["id"] = M{"x": 1} }),
 		mk("bad-id:relative", func(m M) { m["id"] = "/relative/ref" }),
+		mk("bad-id:relative:network-path", func(m M) { m["id"] = "//remote.example/act/1" }),
+		mk("bad-id:relative:fragment", func(m M) { m["id"] = "#act1" }),
+		mk("bad-id:relative:query", func(m M) { m["id"] = "?id=1" }),
+		mk("bad-id:relative:path", func(m M) { m["id"] = "act/1" }),
+		mk("bad-id:boolean", func(m M) { m["id"] = true }),
+		mk("bad-id:list", func(m M) { m["id"] = A{R1 + "/act/in-a-list"} }),
 		mk("good-id", func(m M) {}),
+		mk("good-id:urn", func(m M) { m["id"] = "urn:uuid:6ba7b810-9dad-11d1-80b4-00c04fd430c8" }),
+		mk("good-id:port-query", func(m M) { m["id"] = "https://remote.example:8443/act/1?v=2#x" }),
 	}
 }
 
@@ -347,6 +380,7 @@ func init() {
 					report(base, exp, res, judgeStatus(exp, base, res))
 					return
 				}
+				famN := 0
 				run := func(class string, b M) {
 					sc := cloneScenario(base)
 					sc.Name = ce.Name + "/" + class
@@ -362,6 +396,19 @@ func init() {
 					if class == "bad-id:relative" && ce.Name == "inbox.Like" {
 						r.Sample(map[string]interface{}{"class": class, "request": sc.Requests[0]})
 					}
+					// the rejection branches under every single fault (outcome
+					// rule): a fifth of the family in the quick tier
+					famN++
+					if thorough() || famN%5 == 0 {
+						faultSweep(sc, false, func(fsc *sim.Scenario, fres *sim.Result) {
+							if len(fsc.FailAt) == 0 {
+								return
+							}
+							r.Eval(1)
+							r.Count("family_fault_variant_runs", 1)
+							report(fsc, map[string]interface{}{"class": class, "fail_at": fsc.FailAt}, fres, outcomeMonitor(rq.Kind, fres.Responses[0]))
+						})
+					}
 				}
 				if rq.Kind == "PostInbox" {
 					for _, v := range idFamily(body) {
@@ -370,6 +417,31 @@ func init() {
 				}
 				for _, v := range requiredFamily(body) {
 					run(v.Class, v.Body)
+				}
+				// the application's own callback reports the object / target
+				// as missing (the documented sentinel errors): 400 as well
+				for _, what := range []string{"object", "target"} {
+					sc := cloneScenario(base)
+					sc.Requests = sc.Requests[:1]
+					sc.Cfg.FedWrapped, sc.Cfg.SocWrapped = true, true
+					sc.Cfg.CallbackErr = what
+					sc.Name = ce.Name + "/callback-says-" + what + "-required"
+					res := sim.Run(sc)
+					called := false
+					for _, e := range res.Log {
+						if e.Class() == "cb" {
+							called = true
+						}
+					}
+					if !called {
+						continue
+					}
+					r.Eval(1)
+					r.Count("family_requests", 1)
+					exp := expectation{Endpoint: rq.Kind, AP: "yes", BodyClass: "callback-says-" + what + "-required"}
+					r.NonTrivial(sc.Name)
+					report(sc, exp, res, outcomeMonitor(rq.Kind, res.Responses[0]))
+					report(sc, exp, res, judgeStatus(exp, sc, res))
 				}
 			})
 		}
